@@ -247,6 +247,55 @@ def rule_m5(F):
     return r
 
 
+def rule_m6(F):
+    """Lists of different length are different: the element-wise comparison loop of the script-side list equality only runs
+    behind a comparison that relates the lengths of BOTH lists (walking the left list and looking each index up in the right one
+    accepts every proper prefix)."""
+    from .c08 import deps
+    from ..report import RuleResult as RR
+    r = RR("C15.M6", "list equality compares the lengths of both lists before comparing elements", floor=1)
+    fn = "<value::list::ErasedList as std::cmp::PartialEq>::eq"
+    b = F.body(fn)
+    if b is None or not b.mir:
+        r.missing(fn)
+        return r
+    defs = mir.Defs(b)
+    dom = mir.dominators(b)
+
+    def D(op):
+        if not mir.is_place_op(op):
+            return set()
+        l = op[1][0]
+        if 1 <= l <= b.mir["argc"]:
+            return {"arg%d" % l}
+        return {x.split(".")[0] for x in deps(b, defs, l)}
+    gates = []
+    for bi, blk in enumerate(b.blocks):
+        t = blk["term"]
+        if t["k"] != "switch" or not mir.is_place_op(t["o"]):
+            continue
+        for d in defs.whole_defs(t["o"][1][0]):
+            if d[2] == "assign" and d[3]["rv"]["k"] == "bin" and d[3]["rv"]["op"] in ("Eq", "Ne", "Lt", "Le", "Gt", "Ge"):
+                da, db = D(d[3]["rv"]["a"]), D(d[3]["rv"]["b"])
+                if (da == {"arg1"} and db == {"arg2"}) or (da == {"arg2"} and db == {"arg1"}):
+                    gates.append(bi)
+    loops = mir.natural_loops(b)
+    n = 0
+    for h, nodes in loops:
+        # the element loop: it contains a call through the vtable's eq function or an element lookup
+        if not any(b.blocks[x]["term"]["k"] == "call" and ("ind" in b.blocks[x]["term"]["f"] or hir.last(mir.callee_def(b.blocks[x]["term"])) == "get") for x in nodes):
+            continue
+        n += 1
+        ok = any(g in dom[h] for g in gates)
+        r.inst("element loop #%d" % n, {"loop_header_bb": h, "length_gates": gates, "gated": ok})
+        if not ok:
+            r.bad(fn, "element loop not behind a length comparison", relfile(b.file), b.blocks[h]["term"].get("line", b.line),
+                  "the elements are compared without a preceding comparison of the two lengths: a list that is a proper prefix of the other compares equal (and `==` is no longer symmetric)")
+    if n == 0:
+        r.missing("element comparison loop in " + fn)
+    return r
+
+
 def _scope(F):
     return [b for b in F.all_bodies() if b.mir]
 
@@ -264,7 +313,7 @@ def rules(ctx):
                    "value::list::ErasedList::concat"):
         if not F.has(anchor):
             m1.missing(anchor)
-    return [m1, m2, rule_m4(F), rule_m5(F)]
+    return [m1, m2, rule_m4(F), rule_m5(F), rule_m6(F)]
 
 
 def canary(C):
